@@ -206,7 +206,7 @@ def check_case(ctx, case):
         quantile_ok(name, o.value)
 
     # ------------------------------------------------ (b) seeded path
-    seed = case["seed"]
+    seed = numpy.int64(case["seed"]) if case.get("np_seed") else case["seed"]      # seeds are integers: Python int or numpy integer
     zero = numpy.array(flat) == 0
     for name, mod, fn, kind in (("poisson_L", P, P.likelihood_test, "poisson"), ("poisson_CL", P, P.conditional_likelihood_test, "poisson"),
                                 ("poisson_S", P, P.spatial_test, "poisson_s"), ("poisson_M", P, P.magnitude_test, "poisson_m"),
@@ -413,6 +413,8 @@ def cases(draw, max_events=50):
     c["sims"] = [[[draw(st.sampled_from(modes)), draw(st.floats(0, 0.999999)), draw(st.sampled_from([0.5, 0.1, 0.9, 0.01, 0.99]))]
                   for _ in range(n)] for _ in range(k)]
     c["seed"] = draw(SEEDS)
+    if draw(st.integers(0, 2)) == 0:
+        c["np_seed"] = True
     c["k"] = "gridded"
     return c
 
